@@ -62,6 +62,7 @@ type served struct {
 	*backend.Rec
 	mu      sync.Mutex
 	listing string
+	status  int   // status of the listing answer (0 = 200)
 	hits    int64 // listing requests answered
 }
 
@@ -78,12 +79,26 @@ func newServed(id string) (*served, error) {
 		atomic.AddInt64(&s.hits, 1)
 		return l
 	}
+	r.ModelsStatus = func() int {
+		s.mu.Lock()
+		defer s.mu.Unlock()
+		return s.status
+	}
 	return s, nil
 }
 
 func (s *served) serve(l string) {
 	s.mu.Lock()
 	s.listing = l
+	s.status = 0
+	s.mu.Unlock()
+}
+
+// serveStatus answers the listing with an error status.
+func (s *served) serveStatus(st int, l string) {
+	s.mu.Lock()
+	s.listing = l
+	s.status = st
 	s.mu.Unlock()
 }
 
@@ -145,7 +160,8 @@ type DiscCase struct {
 	Mode   string    `json:"mode"` // discover-all | recovery
 	TypeA  string    `json:"type_a"`
 	TypeB  string    `json:"type_b"`
-	Kind   string    `json:"kind"` // unparseable | empty | oversized | nameless | duplicate | mutated
+	Kind   string    `json:"kind"`             // unparseable | empty | oversized | nameless | duplicate | mutated | http-error
+	Status int       `json:"status,omitempty"` // http-error: status of the poisoned listing answer
 	GoodA  []string  `json:"good_a"`
 	GoodB  []string  `json:"good_b"`
 	GoodA3 []string  `json:"good_a3"`
@@ -186,7 +202,7 @@ func genDisc(t *rapid.T) DiscCase {
 		Mode:   rapid.SampledFrom([]string{"discover-all", "discover-all", "discover-all", "recovery"}).Draw(t, "mode"),
 		TypeA:  rapid.SampledFrom(s.profiles).Draw(t, "type-a"),
 		TypeB:  rapid.SampledFrom(typesB).Draw(t, "type-b"),
-		Kind:   rapid.SampledFrom([]string{"unparseable", "empty", "nameless", "nameless", "duplicate", "duplicate", "mutated", "mutated", "oversized"}).Draw(t, "kind"),
+		Kind:   rapid.SampledFrom([]string{"unparseable", "empty", "nameless", "nameless", "duplicate", "duplicate", "mutated", "mutated", "oversized", "http-error"}).Draw(t, "kind"),
 		GoodA:  subset(t, "good-a", 1),
 		GoodB:  subset(t, "good-b", 1),
 		GoodA3: subset(t, "good-a3", 1),
@@ -206,6 +222,12 @@ func genDisc(t *rapid.T) DiscCase {
 			var dummy Case
 			_, c.Poison = mutateBytes(t, good, smallSeeds["models"], &dummy)
 		}
+	case "http-error":
+		// the listing request itself is refused. Olla stops asking such an endpoint for its models
+		// until it recovers, so these cases run in recovery mode (every round is a recovery)
+		c.Mode = "recovery"
+		c.Status = rapid.SampledFrom([]int{401, 403, 404, 429, 500, 503}).Draw(t, "status")
+		c.Poison = []byte(rapid.SampledFrom([]string{`{"error":{"message":"unauthorized"}}`, "", "<html>gateway</html>", string(good)}).Draw(t, "errbody"))
 	case "empty":
 		c.Poison = []byte(rapid.SampledFrom(emptyBodies).Draw(t, "empty"))
 	case "nameless", "duplicate":
@@ -395,6 +417,7 @@ func runDisc(c DiscCase) []ev.Violation {
 	}, hx.QuietLogger())
 
 	// round runs one discovery round; which = the endpoints refreshed in recovery mode
+	notAsked := false
 	round := func(which ...*served) (hung bool) {
 		if c.Mode == "discover-all" {
 			done := make(chan struct{})
@@ -427,6 +450,7 @@ func runDisc(c DiscCase) []ev.Violation {
 		for _, b := range which {
 			b := b
 			if !hx.Poll(10*time.Second, 2*time.Millisecond, func() bool { return atomic.LoadInt64(&b.hits) > before[b] }) {
+				notAsked = true // the health round finished, the endpoint recovered, but nobody asked it for its models
 				return true
 			}
 		}
@@ -484,7 +508,14 @@ func runDisc(c DiscCase) []ev.Violation {
 	} else {
 		allowed, allowedKnown = payloadStrings(c.Poison)
 	}
-	A.serve(poison)
+	if c.Status != 0 {
+		A.serveStatus(c.Status, poison)
+		// a refused listing request carries no listing: nothing of its body may reach the catalogue
+		allowed, allowedKnown = map[string]bool{}, true
+		rec.Class(fmt.Sprintf("disc/listing-status=%d", c.Status))
+	} else {
+		A.serve(poison)
+	}
 	type probeRes struct {
 		status int
 		served string
@@ -649,7 +680,11 @@ func runDisc(c DiscCase) []ev.Violation {
 	// ---- round 3: A good again
 	A.serve(listingFor(c.TypeA, c.GoodA3))
 	if round(A) {
-		bad("hang/discovery-round", "round 3 (good listing after %s) did not finish", c.Kind)
+		if notAsked {
+			bad("discovery/recovered-endpoint-not-asked-for-its-models/"+c.Kind, "endpoint A (%s) went not-healthy and recovered after serving %s, but its model listing was not requested within 10 s of the recovery", c.TypeA, show([]byte(poison)))
+		} else {
+			bad("hang/discovery-round", "round 3 (good listing after %s) did not finish", c.Kind)
+		}
 		return vs
 	}
 	applied := func() bool { _, set, err := listed(s, A.URL()); return err == nil && sameSet(set, c.GoodA3) }
